@@ -505,6 +505,9 @@ func TestC13(t *testing.T) {
 		gen.NonTrivial(kind, der)
 		gen.Sample("malformed", map[string]any{"variant": kind, "error": vd.Err.Error()})
 	})
+	// byte-level differential against the reference reader (c13diff_test.go)
+	c13Differential(t)
+	c13Histories(t)
 }
 
 func c13OddityProp(t *rapid.T) {
